@@ -16,6 +16,8 @@ const ATTR_KEYS = Object.keys(ATTR);
 const CHILD = {
   text: 'a', bx: '{x}', ux: '{u}', call: '{f()}', el: '<b/>', frag: '<>{x}</>', comp: '<B>{x}</B>', compEl: '<B><i/></B>', compText: '<B>t</B>',
   parenIdent: '{(x)}', parenSlots: '{(vsl)}', identSlots: '{vsl}', callSlots: '{(() => vsl)()}', parenCall: '{(f())}', seqIdent: '{(0, x)}', arrow: '{() => [x]}', objlit: '{{ default: () => [y] }}', spread: '{...xs}', cond: '{c && <i/>}', empty: '{}', nestedDyn: '<div><B>{y}</B></div>',
+  // spreads of array literals of length 0/1/2, and a sole call whose callee is named like a vnode factory but is a binding of the module
+  spreadArr0: '{...[]}', spreadArr1: '{...[vsl]}', spreadArrFn: '{...[() => [x]]}', spreadArr2: '{...[x, y]}', callH: '{h()}', callHh: '{hh(x)}',
 };
 const CHILD_KEYS = Object.keys(CHILD);
 const HOSTS = ['div', 'Comp', 'frag', 'KeepAlive', 'Unbound', 'input'];
@@ -34,7 +36,7 @@ const STMT = {
 const STMT_KEYS = Object.keys(STMT);
 const OTHER_OPTS = [...product([[true, false], [false, true], [true, false]])].map(([mergeProps, transformOn, enableObjectSlots]) => ({ mergeProps, transformOn, enableObjectSlots }));
 
-const PRELUDE = E.PRELUDE + 'const vsl = { bar: h1 };\n';
+const PRELUDE = E.PRELUDE + 'const vsl = { bar: h1 };\nconst h = () => vsl;\nconst hh = (q) => [q];\n';
 
 function spaces(tier) {
   const thorough = tier === 'thorough';
